@@ -26,6 +26,7 @@
 #include <set>
 #include <sstream>
 #include <string>
+#include <sys/time.h>
 #include <unistd.h>
 #include <vector>
 
@@ -214,6 +215,37 @@ inline void dump_crash() {
   S.in_case = false;
   flush_stats();
 }
+// CPU-time (not wall-clock) budget per case: code that does not come back within VV_CASE_CPU_S seconds of *process CPU
+// time* (default 60; normal cases take micro- to milliseconds) is reported as non-termination.  CPU time does not
+// depend on the load of the machine, so this is not a wall-clock oracle.
+inline long &case_cpu_budget_s() {
+  static long v = [] {
+    const char *e = getenv("VV_CASE_CPU_S");
+    return e ? atol(e) : 60L;
+  }();
+  return v;
+}
+inline void arm_cpu_watchdog(bool on) {
+  struct itimerval it;
+  memset(&it, 0, sizeof it);
+  if (on) it.it_value.tv_sec = case_cpu_budget_s();
+  setitimer(ITIMER_VIRTUAL, &it, nullptr);
+}
+inline void on_cpu_budget(int) {
+  State &S = st();
+  if (S.in_case && !S.crash.empty()) {
+    FILE *f = fopen(S.crash.c_str(), "w");
+    if (f) {
+      fprintf(f, "{\"property\":\"%s\",\"sub\":\"%s\",\"crash\":true,\"cpu_budget\":true,\"case\":%s}\n", S.property.c_str(),
+              S.current_sub.c_str(), S.current_case.c_str());
+      fclose(f);
+    }
+    S.in_case = false;
+    flush_stats();
+  }
+  fprintf(stderr, "VV: case exceeded its CPU budget of %ld s (non-termination?)\n", case_cpu_budget_s());
+  _exit(87);
+}
 inline void on_sigabrt(int) {
   dump_crash();
   signal(SIGABRT, SIG_DFL);
@@ -226,12 +258,14 @@ inline Result run_guarded(const Sub &sub, const json &c) {
   S.current_sub = sub.name;
   S.current_case = c.dump();
   S.in_case = true;
+  arm_cpu_watchdog(true);
   Result r;
   try {
     r = sub.run(c);
   } catch (const std::exception &e) {
     r.fail("unexpected-exception", std::string("unexpected exception: ") + e.what());
   }
+  arm_cpu_watchdog(false);
   S.in_case = false;
   return r;
 }
@@ -289,6 +323,7 @@ inline int harness_main(int argc, char **argv, const std::string &property, std:
   }
   if (__sanitizer_set_death_callback) __sanitizer_set_death_callback(dump_crash);
   signal(SIGABRT, on_sigabrt);
+  signal(SIGVTALRM, on_cpu_budget);
 
   if (!replay.empty()) {
     std::ifstream f(replay);
